@@ -200,6 +200,11 @@ def build(rng, pattern, cell_cls, atol, n_copies=2, crossings=None, poses=None, 
     last_R = [None]
     for k in range(n_copies):
         pose = poses[k % len(poses)]
+        fr = str(pattern.get("frame", ""))
+        if k == n_copies - 1 and len(ppos) >= 2 and (fr.startswith("direction") or (fr.startswith("axis") and int(np.abs(ppos).sum() * 1e6) % 2)):
+            # a pattern written with its axis along a special direction gets a copy turned by exactly half a turn about a
+            # perpendicular: the one orientation in which the rotation helper has to invent an axis, from the direction it was given
+            pose = "axis_antiparallel_exact"
         placed = None
         for _ in range(30):
             if pose.startswith(("sign_twin", "near_twin")):
